@@ -64,7 +64,9 @@ impl Commitment {
 pub uninterp spec fn kernel_on_chain(excess: Commitment) -> bool;   // the node reports a kernel with this excess
 pub trait NodeClient: Sized + Clone {
     fn get_kernel(&mut self, excess: &Commitment, min_height: Option<u64>, max_height: Option<u64>) -> (r: Result<Option<(TxKernel, u64, u64)>, Error>)
-        ensures r matches Ok(Some(k)) ==> kernel_on_chain(*excess);
+        ensures r matches Ok(Some(k)) ==> kernel_on_chain(*excess),
+            // A-node: a node that answers "no such kernel" is believed
+            r matches Ok(None) ==> !kernel_on_chain(*excess);
     // chain tip (height, hash) as reported by the node — any value, may fail
     fn get_chain_tip(&self) -> (r: Result<(u64, String), Error>)
         ensures r matches Err(e) ==> store_err(e);
